@@ -92,6 +92,8 @@ func harnessFn(name string) externalFn {
 			fr.i.nowHook = a[0].(*value)
 			return nil
 		}
+	case "verifWaitGroupCount":
+		return func(fr *frame, a []value) value { return int((*wgCounter(a[0])).(uint64)) }
 	case "verifIsSymbolic": // for engine self tests
 		return func(fr *frame, a []value) value { return isSym(a[0]) }
 	case "verifMathMode":
